@@ -150,9 +150,13 @@ def findBreakpointsFrom {C} (zero : C) : Nat → List (List Nat) → List (Break
 def findBreakpoints {C} (zero : C) (threads : List (List Nat)) : List (Breakpoint C) :=
   findBreakpointsFrom zero 1 threads
 
+/-- `PhaseBreakpoint.__init__`: `self.haplotypes = sorted(haplotypes[:])` -/
+def mkBreakpoint {C} (pos : Nat) (haps : List Nat) (conf : C) : Breakpoint C :=
+  ⟨pos, isort (fun a b => decide (a ≤ b)) haps, conf⟩
+
 /-- breakpoints of a sub-result mapped into the block: `pos = snps[bp.position]`, `haps = thread_set[i]` -/
 def mapSubBreakpoints {C} (snps ts : List Nat) (bps : List (Breakpoint C)) : List (Breakpoint C) :=
-  bps.map (fun b => ⟨snps.getD b.position 0, b.haplotypes.map (fun i => ts.getD i 0), b.confidence⟩)
+  bps.map (fun b => mkBreakpoint (snps.getD b.position 0) (b.haplotypes.map (fun i => ts.getD i 0)) b.confidence)
 
 /-- `breakpoints.sort(key=lambda x: x.position)` (stable) -/
 def sortByPosition {C} (bps : List (Breakpoint C)) : List (Breakpoint C) :=
@@ -189,7 +193,7 @@ def aggregateBps {C} (zero : C) (ploidy : Nat) (borders : List Nat) : Nat → Li
   | _, [] => []
   | off, r :: rs =>
     (if borders.isEmpty || borders.contains off || off == 0 then [⟨off, List.range ploidy, zero⟩] else []) ++
-      r.bps.map (fun b => ⟨b.position + off, b.haplotypes, b.confidence⟩) ++
+      r.bps.map (fun b => mkBreakpoint (b.position + off) b.haplotypes b.confidence) ++
       aggregateBps zero ploidy borders (off + r.ncols) rs
 
 /-! ## get_optimal_assignments without affiliations -/
